@@ -161,6 +161,18 @@ class FaultyLearner:
             raise Injected(f"params:{self.tag}")
         return {"family": "Faulty", "tag": self.tag, "where": self.where, "k": self.k}
 
+    def __deepcopy__(self, memo):
+        # where == "copy": a learner that cannot be deep-copied (holds a lock, an open file, a native handle ...).  It is only ever copied
+        # when it is listed for several triples; the failure belongs to the triple ProcessTasks was about to evaluate
+        if self.where == "copy":
+            raise Injected(f"copy:{self.tag}")
+        new = type(self).__new__(type(self))
+        memo[id(self)] = new
+        import copy
+        for k, v in self.__dict__.items():
+            setattr(new, k, copy.deepcopy(v, memo))
+        return new
+
     def _hit(self, context):
         if self.env_tag is None:
             return True
